@@ -509,3 +509,24 @@ Example ex_trailing : time_from_str true [55;48;48;49;48;49;48;48;48;48;48;48;90
 Proof. vm_compute. reflexivity. Qed.
 Example ex_feb29_refused : time_from_str true [48;49;48;50;50;57;48;48;48;48;48;48;90] = Err.     (* 010229... *)
 Proof. vm_compute. reflexivity. Qed.
+
+(* ------------------------------------------------------------------ signed time_t: every time stamp the (fixed) encoder accepts is >= 0 and round-trips *)
+Theorem time_der_roundtrip_z utc tag (t : Z) e rest :
+  time_to_der_z true utc tag t = Ok e -> (0 <= t)%Z /\ time_from_der utc tag (e ++ rest) = Ok (Z.to_N t, rest).
+Proof.
+  unfold time_to_der_z, time_to_str_z. destruct (t =? -1)%Z; [discriminate|].
+  destruct (Z.ltb_spec t 0) as [L|L]; [discriminate|]. intros E. split; [assumption|].
+  apply time_der_roundtrip. unfold time_to_der. destruct (time_to_str utc (Z.to_N t)); [exact E|discriminate].
+Qed.
+Theorem time_to_str_z_range utc (t : Z) :
+  (exists s, time_to_str_z true utc t = Some s) <-> (0 <= t)%Z /\ Z.to_N t < limit utc.
+Proof.
+  unfold time_to_str_z. destruct (Z.ltb_spec t 0) as [L|L].
+  - split; [intros [s H']; discriminate|intros [H' _]; lia].
+  - rewrite time_to_str_defined. split; [intros; split; auto|intros [_ H']; exact H'].
+Qed.
+(* the text as it stands: one second before the epoch gives "691231..."?  no: "7001010000 0/" - not a time string *)
+Example time_negative_asis_not_a_time :
+  time_to_str_z false true (-5) = Some [55; 48; 48; 49; 48; 49; 48; 48; 48; 48; 48; 43; 90]
+  /\ time_from_str true [55; 48; 48; 49; 48; 49; 48; 48; 48; 48; 48; 43; 90] = Err.
+Proof. split; vm_compute; reflexivity. Qed.
